@@ -264,8 +264,18 @@ Definition max_fields : N := 2 ^ 29 - 1.
 
 (* well-formed (non-empty ENUMERATED and CHOICE, field numbers representable) and outside the finding classes
    (no NULL / SEQUENCE OF alternative, no SEQUENCE OF SEQUENCE OF, no SEQUENCE OF NULL) *)
+(* what the compiler produces for an extensible INTEGER: u64 when MIN (absent = 0) is not negative, i64 otherwise
+   (needed for C18 only: the format follows the sign of MIN, the declared proto type follows the Rust type) *)
+Definition wf_kind (k : pikind) : bool :=
+  match k with
+  | KExt false mn _ => (0 <=? unwrap_or mn 0)%Z
+  | KExt true mn _ => (unwrap_or mn 0 <? 0)%Z
+  | _ => true
+  end.
+
 Fixpoint good (t : pty) : bool :=
   match t with
+  | TInt k => wf_kind k
   | TEnum n => (0 <? n) && (n <=? two32)
   | TSeq fs => (nl fs <? max_fields) && forallb (fun p => good (snd p)) fs
   | TSeqOf t' => single t' && good t'
@@ -719,6 +729,7 @@ Inductive Known_ty : pty -> Prop :=
 (* sizes a generated type always has: non-empty ENUMERATED / CHOICE, at most 2^32 variants, field numbers below 2^29 *)
 Fixpoint sized (t : pty) : bool :=
   match t with
+  | TInt k => wf_kind k
   | TEnum n => (0 <? n) && (n <=? two32)
   | TSeq fs => (nl fs <? max_fields) && forallb (fun p => sized (snd p)) fs
   | TSeqOf t' => sized t'
@@ -729,6 +740,7 @@ Fixpoint sized (t : pty) : bool :=
 Lemma good_of_sized : forall t, sized t = true -> ~ Known_ty t -> good t = true.
 Proof.
   induction t as [| k | | | | | n | fs IH | t' IH | alts IH] using pty_ind2; intros Hs Hk; try reflexivity.
+  - exact Hs.
   - exact Hs.
   - cbn [sized good] in *. apply andb_true_iff in Hs. destruct Hs as [H1 H2]. rewrite H1. cbn [andb].
     apply forallb_forall. intros [o t] Hin. rewrite forallb_forall in H2. rewrite Forall_forall in IH.
